@@ -72,7 +72,7 @@ UNIT = dict(
             let d2 = files2[f];
             assert(d2.len() == d1.len());
             assert forall|i: int| 0 <= i < d1.len() && !(a <= i < a + need) implies #[trigger] d2[i] == d1[i] by {}
-            lemma_packed_append(d1, d2, blk1.offset as int, a, data@, col0, next_block_start);
+            lemma_packed_append(d1, d2, blk1.offset as int, a, data@, col0, (blk1.offset + blk1.limit) as u64);
             lemma_chain_frame(log1, col0, files0, files2, f, a, a + need);
         }"""),
                  dict(before="                    return Err(e);", count=None, text="""                    proof {
